@@ -299,6 +299,19 @@ let run_case (fields : string list) : string =
        (match v with Ok vs -> String.concat "" (List.map (fun b -> if b then "u" else "c") vs) ^ "." | _ -> "ERR")
      | "format_target" -> "OK\t" ^ show_path (format_target parse_uint_bits (str_of_hex a1))
      | _ -> "UNKNOWN-CLI")
+  | "self_update" :: cur :: rels :: hashes :: payloads :: _ ->
+    let optn s = if s = "-" then None else Some (n_of_int (int_of_string s)) in
+    let rel_of e = match String.split_on_char '|' e with
+      | [v; d; p; an; ab; sums] ->
+        { r_ver = optn v; r_draft = (d = "1"); r_pre = (p = "1");
+          r_asset = (if an = "-" then None else Some (str_of_hex an, (if ab = "FAIL" then None else Some (str_of_hex ab))));
+          r_sums = (if sums = "-" then None else Some (if sums = "FAIL" then None else Some (str_of_hex sums))) }
+      | _ -> failwith "bad release" in
+    let rl = if rels = "LISTFAIL" then None else Some (if rels = "." then [] else List.map rel_of (String.split_on_char ';' rels)) in
+    let exe = str_of_hex "4f4c44" in
+    (match self_update_ranked self_update_validates (smap_of_arg hashes) (smap_of_arg payloads) (optn cur) exe rl with
+     | (Installed _, e) -> "INSTALLED\t" ^ hex_of_str e
+     | (_, e) -> if e = exe then "UNTOUCHED" else "MODEL-INCONSISTENT")
   | s :: _ -> "UNKNOWN-SUITE " ^ s
   | [] -> "EMPTY"
 
